@@ -13,7 +13,8 @@ import TflModel.Lemmas.Ensembles
   constructor argument is not serialised), and every class is reloadable under
   `premade.get_custom_objects()` (`CDF` too since fix 029a324; F-C11-e fixed).
 * T2 `valSem_idem`: the normalisers modelled in Lean (`utils.canonicalize_*`, the single-tuple
-  wrap, the `Linear` monotonicity broadcast, the CDF float default) are idempotent in the strong
+  wrap, its compositions with `canonicalize_trust` / `as_tuples` in `LatticeConstraints` (fix ebf18ed),
+  the `Linear` monotonicity broadcast, the CDF float default) are idempotent in the strong
   form the theorem needs, and tuple↔list insensitive (`Lemmas/Verify.lean`).
 * T3 `rtl_structure_deterministic`, `random_ensemble_deterministic`: seed-derived structure is a
   FUNCTION of what the config stores.
@@ -280,6 +281,73 @@ theorem fixed_C11_f_pairs_are_tuples (a b : Atom) :
     asTuples (.s false [.s false [a, b]]) = .s false [.s true [a, b]] ∧
     asTuples (.s false [.s true [a, b]]) = .s false [.s true [a, b]] := ⟨rfl, rfl⟩
 
+/-! ### the compositions of `LatticeConstraints.__init__` since fix ebf18ed: `as_list`, then the canonicaliser -/
+
+/-- a LIST is never wrapped (`isinstance(x, tuple)` fails) -/
+theorem wrapSingle_list (xs : List Item) : wrapSingle (.s false xs) = .s false xs := rfl
+
+/-- what `canonicalize_trust` returns (`None` or a list) is never wrapped -/
+theorem wrapSingle_trustsVal (o : Option (List CTrust)) : wrapSingle (trustsVal o) = trustsVal o := by
+  cases o <;> rfl
+
+/-- `canonicalize_trust ∘ as_list` is idempotent on its own output -/
+theorem wrapCanonTrust_idem (v : Val) (o : Option (List CTrust)) (h : canonTrust (wrapSingle v) = .ok o) :
+    canonTrust (wrapSingle (trustsVal o)) = .ok o := by
+  rw [wrapSingle_trustsVal]
+  exact canonTrust_idem (wrapSingle v) o h
+
+/-- `as_tuples` returns its argument or a LIST -/
+theorem asTuples_self_or_list (u : Val) : asTuples u = u ∨ ∃ ys, asTuples u = .s false ys := by
+  cases u with
+  | a x => exact Or.inl rfl
+  | s t xs =>
+    simp only [asTuples]
+    split
+    · exact Or.inr ⟨_, rfl⟩
+    · exact Or.inl rfl
+
+/-- `as_tuples ∘ as_list` is idempotent: its result is a list (never wrapped again, `as_tuples` is
+idempotent) or the already wrapped argument itself -/
+theorem wrapAsTuples_idem (v : Val) :
+    asTuples (wrapSingle (asTuples (wrapSingle v))) = asTuples (wrapSingle v) := by
+  rcases asTuples_self_or_list (wrapSingle v) with h | ⟨ys, h⟩
+  · rw [h, wrapSingle_idem, h]
+  · have h2 := asTuples_idem (wrapSingle v)
+    rw [h] at h2 ⊢
+    rw [wrapSingle_list, h2]
+
+/-- **fix ebf18ed (model level)** a single dominance / joint-monotonicity pair `(a, b)` with an integer
+first entry is stored as `[(a, b)]`, exactly what the one-element-list spellings `[(a, b)]` and `[[a, b]]`
+store — whereas `as_tuples` ALONE would have kept the bare tuple `(a, b)` (the composition is modelled,
+not its parts) -/
+theorem fixed_ebf18ed_single_pair (i : Int) (b : Atom) :
+    asTuples (wrapSingle (.s true [.a (.int i), .a b])) = .s false [.s true [.int i, b]] ∧
+    asTuples (wrapSingle (.s false [.s true [.int i, b]])) = .s false [.s true [.int i, b]] ∧
+    asTuples (wrapSingle (.s false [.s false [.int i, b]])) = .s false [.s true [.int i, b]] ∧
+    asTuples (.s true [.a (.int i), .a b]) = .s true [.a (.int i), .a b] := ⟨rfl, rfl, rfl, rfl⟩
+
+/-- **fix ebf18ed (model level)** a single trust triple `(a, b, "positive")` is stored as `[(a, b, 1)]`,
+exactly what the one-element-list spelling stores; the empty tuple is left alone by `as_list` (the
+`and constraints` guard) and stored as `None` -/
+theorem fixed_ebf18ed_single_trust (i : Int) (b : Atom) :
+    orSelf (.s true [.a (.int i), .a b, .a (.str .positive)])
+        ((canonTrust (wrapSingle (.s true [.a (.int i), .a b, .a (.str .positive)]))).map trustsVal) =
+      .s false [.s true [.int i, b, .int 1]] ∧
+    orSelf (.s false [.s true [.int i, b, .str .positive]])
+        ((canonTrust (wrapSingle (.s false [.s true [.int i, b, .str .positive]]))).map trustsVal) =
+      .s false [.s true [.int i, b, .int 1]] ∧
+    wrapSingle (.s true []) = .s true [] ∧
+    orSelf (.s true []) ((canonTrust (wrapSingle (.s true []))).map trustsVal) = .a .none :=
+  ⟨rfl, rfl, rfl, rfl⟩
+
+/-- the joint-unimodality wrap (typed model `wrapJU`; an opaque id of the table, `Val` has no nesting
+depth 3) is idempotent: a wrapped single pair is a list, which is left alone -/
+theorem wrapJU_idem (j : JU) : wrapJU (wrapJU j) = wrapJU j := by
+  cases j with
+  | none => rfl
+  | list xs => rfl
+  | single dims dir => cases dir <;> rfl
+
 theorem toFloat_idem (c c' v : Val) : toFloat c' (toFloat c v) = toFloat c v := by
   cases v with
   | s t xs => rfl
@@ -295,18 +363,21 @@ theorem toFloat_idem (c c' v : Val) : toFloat c' (toFloat c v) = toFloat c v := 
 modelled normaliser: the un-normalised read is the identity and each normaliser `N` satisfies
 `N o' (N o v) = N o v` for all contexts — `canonicalize_monotonicities / monotonicity /
 unimodalities / trust`, the single-tuple wrap of `Lattice.__init__`, the monotonicity broadcast of
-`Linear.__init__`, the float default of `CDF.__init__` and the tuple canonicalisation of the
-`LatticeConstraints` dominance pairs (fix 7780660). -/
+`Linear.__init__`, the float default of `CDF.__init__`, the tuple canonicalisation of the
+`LatticeConstraints` dominance pairs (fix 7780660) and the two compositions "single-tuple wrap, then
+`canonicalize_trust` / `as_tuples`" of `LatticeConstraints.__init__` (fix ebf18ed). -/
 theorem valSem_idem : (∀ o v, valSem.norm idNorm o v = v) ∧
     ∀ n ∈ modelledNorms, ∀ (o o' : String → Val) (v : Val),
       valSem.norm n o' (valSem.norm n o v) = valSem.norm n o v := by
   refine ⟨fun o v => by simp [valSem, valNorm, idNorm, nCanonMono0, nCanonMono1, nCanonTrust, nCanonUni,
-    nWrapSingle, nLinearMono, nFloatOr, nAsTuples], ?_⟩
+    nWrapSingle, nLinearMono, nFloatOr, nAsTuples, nWrapCanonTrust, nWrapAsTuples], ?_⟩
   intro n hn o o' v
   simp only [modelledNorms, List.mem_cons, List.mem_nil_iff, or_false] at hn
-  rcases hn with rfl | rfl | rfl | rfl | rfl | rfl | rfl | rfl | rfl | rfl
-  · simp [valSem, valNorm, idNorm, nCanonMono0, nCanonMono1, nCanonTrust, nCanonUni, nWrapSingle, nLinearMono, nFloatOr, nAsTuples]
-  · simp [valSem, valNorm, nCanonMono0, nCanonMono1, nCanonTrust, nCanonUni, nWrapSingle, nLinearMono, nFloatOr, nAsTuples]
+  rcases hn with rfl | rfl | rfl | rfl | rfl | rfl | rfl | rfl | rfl | rfl | rfl | rfl
+  · simp [valSem, valNorm, idNorm, nCanonMono0, nCanonMono1, nCanonTrust, nCanonUni, nWrapSingle, nLinearMono, nFloatOr, nAsTuples,
+      nWrapCanonTrust, nWrapAsTuples]
+  · simp [valSem, valNorm, nCanonMono0, nCanonMono1, nCanonTrust, nCanonUni, nWrapSingle, nLinearMono, nFloatOr, nAsTuples,
+      nWrapCanonTrust, nWrapAsTuples]
   · simp only [valSem, valNorm, if_true]
     exact orSelf_canon_idem (canonMonotonicities false) atomsVal (canonMonotonicities_idem false) v
   · have e1 : nCanonMono1 ≠ nCanonMono0 := by decide +kernel
@@ -354,6 +425,27 @@ theorem valSem_idem : (∀ o v, valSem.norm idNorm o v = v) ∧
     have e7 : nAsTuples ≠ nFloatOr := by decide +kernel
     simp only [valSem, valNorm, e1, e2, e3, e4, e5, e6, e7, if_false, if_true]
     exact asTuples_idem v
+  · have e1 : nWrapCanonTrust ≠ nCanonMono0 := by decide +kernel
+    have e2 : nWrapCanonTrust ≠ nCanonMono1 := by decide +kernel
+    have e3 : nWrapCanonTrust ≠ nCanonTrust := by decide +kernel
+    have e4 : nWrapCanonTrust ≠ nCanonUni := by decide +kernel
+    have e5 : nWrapCanonTrust ≠ nWrapSingle := by decide +kernel
+    have e6 : nWrapCanonTrust ≠ nLinearMono := by decide +kernel
+    have e7 : nWrapCanonTrust ≠ nFloatOr := by decide +kernel
+    have e8 : nWrapCanonTrust ≠ nAsTuples := by decide +kernel
+    simp only [valSem, valNorm, e1, e2, e3, e4, e5, e6, e7, e8, if_false, if_true]
+    exact orSelf_canon_idem (fun v => canonTrust (wrapSingle v)) trustsVal wrapCanonTrust_idem v
+  · have e1 : nWrapAsTuples ≠ nCanonMono0 := by decide +kernel
+    have e2 : nWrapAsTuples ≠ nCanonMono1 := by decide +kernel
+    have e3 : nWrapAsTuples ≠ nCanonTrust := by decide +kernel
+    have e4 : nWrapAsTuples ≠ nCanonUni := by decide +kernel
+    have e5 : nWrapAsTuples ≠ nWrapSingle := by decide +kernel
+    have e6 : nWrapAsTuples ≠ nLinearMono := by decide +kernel
+    have e7 : nWrapAsTuples ≠ nFloatOr := by decide +kernel
+    have e8 : nWrapAsTuples ≠ nAsTuples := by decide +kernel
+    have e9 : nWrapAsTuples ≠ nWrapCanonTrust := by decide +kernel
+    simp only [valSem, valNorm, e1, e2, e3, e4, e5, e6, e7, e8, e9, if_false, if_true]
+    exact wrapAsTuples_idem v
 
 /-- **C11 (T0 + T1 + T2 together).** For every class of the regenerated table other than the four
 premade models, every semantics that agrees with the Lean models on the modelled normalisers and
